@@ -125,6 +125,33 @@ def c15_3(ctx):
     _refcheck(ctx, CF, "ChainFinder.find_ancestral_path", "cf_find_ancestral_path", "common-ancestor")
     _refcheck(ctx, CF, "ChainFinder.maximum_path", "cf_maximum_path", "maximum-path")
     _refcheck(ctx, CF, "ChainFinder.all_chains_ending_at", "cf_all_chains_ending_at", "candidates")
+    # a negative index counts back from the tip of the WHOLE chain (locked prefix + unlocked part): on every path taken for
+    # index < 0, wherever the index is used as a position it occurs together with self.length()
+    ti = ctx.func(BC, "BlockChain.tuple_for_index")
+    ip = ti.params()[1] if len(ti.params()) > 1 else "index"
+    wt = sym.walk(ctx, ti, int_names=lambda t: True)
+    neg = ("op", "%s < 0" % ip)
+    negs = [e for e in wt.exits if e.kind == "return" and e.value is not None and e.cond not in (True, False) and ("%s < 0" % ip) in gi.f_opaques(e.cond) and sym.entails(e.cond, neg)]
+    if not negs:
+        ctx.undecided("negative-index-from-whole-length", ctx.where(ti), "tuple_for_index: no exit taken exactly for a negative index (`%s < 0`) found" % ip)
+    for e in negs:
+        subs = [n for n in ast.walk(e.value) if isinstance(n, ast.Subscript) and any(isinstance(x, ast.Name) and x.id == ip for x in ast.walk(n.slice))]
+        bad_ = [n for n in subs if "self.length()" not in norm(n.slice)]
+        ctx.check(bool(subs) and not bad_, "negative-index-from-whole-length", ctx.where(ti, e.node),
+                  "tuple_for_index, for a negative index, reads position `%s`: the index is not counted back from self.length() (locked + unlocked); once a prefix is locked, -1 no longer names the tip" % (norm(bad_[0].slice)[:70] if bad_ else "?"),
+                  sample={"negative_index_position": norm(subs[0].slice)[:70] if subs else None})
+    # and hash_for_index reads the same table the same way: it is tuple_for_index(index)[0]
+    hi = ctx.func(BC, "BlockChain.hash_for_index")
+    wh = sym.walk(ctx, hi)
+    rets_ = [e for e in wh.exits if e.kind == "return" and e.value is not None]
+    for e in rets_:
+        t = norm(e.value)
+        if "tuple_for_index(" in t:
+            ctx.ok("hash-for-index-through-tuple", sample={"returns": t[:60]})
+        elif "_locked_chain" in t or "_longest" in t:
+            ctx.bad("hash-for-index-through-tuple", ctx.where(hi, e.node), "hash_for_index reads the chain tables itself (`%s`) instead of going through tuple_for_index: a second copy of the index arithmetic (negative indexes, the locked prefix) that does not follow the first" % t[:70])
+        else:
+            ctx.undecided("hash-for-index-through-tuple", ctx.where(hi, e.node), "hash_for_index returns `%s`" % t[:60])
 
 
 # ------------------------------------------------------------------ C15.4
